@@ -149,6 +149,7 @@ type wWorld struct {
 	tokAuth auth.AuthHandler
 	panicked any
 	watchdog *time.Timer
+	noteSeq  func(route string, sel int) int // symbolic seq of a {note} (op.M): set by the C15 observer
 }
 
 const wStoreCfg = `{"uid_key":"la6YsO+bNX/+XIkOqc5Svw==","max_results":1024,"use_adapter":"verifmem"}`
